@@ -34,9 +34,11 @@ static int run_exec(const cfg_t *cf, const uint8_t *prefix, int np) {
 	return 0;
 }
 static const char *cfgname(const cfg_t *cf) { static char b[96]; snprintf(b, sizeof b, "%s-%s-depth%d", PNAME[cf->proto], cf->mutual ? "mutual" : "serverauth", cf->depth); return b; }
-static uint64_t NEXEC, NSTATES_SEEN; static uint64_t *SEEN; static size_t SEENCAP;
-static int seen_add(uint64_t h) { if (!SEEN) { SEENCAP = 1 << 20; SEEN = calloc(SEENCAP, 8); } if (!h) h = 1; size_t j = h & (SEENCAP - 1); while (SEEN[j]) { if (SEEN[j] == h) return 0; j = (j + 1) & (SEENCAP - 1); } SEEN[j] = h; NSTATES_SEEN++; return 1; }
+static uint64_t NEXEC, NSTATES_SEEN, NTRANS; static uint64_t *SEEN; static size_t SEENCAP;
+static int seen_add(uint64_t h) { if (!SEEN) { SEENCAP = 1 << 23; SEEN = calloc(SEENCAP, 8); } if (NSTATES_SEEN > SEENCAP / 2) return 0; /* table half full: the state count reported is a lower bound from here on */ if (!h) h = 1; size_t j = h & (SEENCAP - 1); while (SEEN[j]) { if (SEEN[j] == h) return 0; j = (j + 1) & (SEENCAP - 1); } SEEN[j] = h; NSTATES_SEEN++; return 1; }
 static void judge(const cfg_t *cf, const uint8_t *prefix, int np, const char *blk) {
+	/* explorer states = distinct nodes of the choice tree (configuration, choices taken so far); transitions = choice points passed */
+	{ uint64_t h = vh_hash(cf, sizeof *cf, 11); seen_add(h); for (int i = 0; i < XO->ntrace; i++) { uint8_t c = XO->trace[i].c; h = vh_hash(&c, 1, h); seen_add(h); NTRANS++; } }
 	char key[200], pre[400] = ""; for (int i = 0, o = 0; i < np && o < 380; i++) if (prefix[i]) o += snprintf(pre + o, sizeof pre - o, "%d:%d,", i, prefix[i]);
 	vh_eval(vh_hash(prefix, np, vh_hash(cf, sizeof *cf, 3)));
 	if (XO->fail[0]) { snprintf(key, sizeof key, "C08:%s:%s:%s", blk, cfgname(cf), XO->fail); vh_viol(key, "\"choices\":\"%s\"", pre); return; }
@@ -72,7 +74,7 @@ static void body(void) {
 	/* C: interleaved use — the server reads PART of a record, writes its own data, then reads the rest (read buffers smaller than the record) */
 	for (int p = 0; p < 3; p++) { char bn[64]; snprintf(bn, sizeof bn, "interleaved-%s", PNAME[p]); if (!vh_block_begin(bn)) continue; static const size_t IW[] = { 17, 1000, 16384 }, IR[] = { 1, 7, 100, 999 }, IX[] = { 1, 500, 16384, 20000 };
 		for (int wi = 0; wi < 3; wi++) for (int ri = 0; ri < 4; ri++) for (int xi = 0; xi < 4; xi++) { if (IR[ri] >= IW[wi]) continue; cfg_t cf = { p, 0, 1, { { IW[wi] }, 1, IR[ri] }, { { IX[xi] }, 1, 4096 }, 1, 1 }; if (!vh_next()) continue; ENVX = 0; run_exec(&cf, NULL, 0); NEXEC++; judge(&cf, NULL, 0, "interleaved"); vh_sample("{\"block\":\"interleaved\",\"proto\":\"%s\",\"c2s_write\":%zu,\"server_readbuf\":%zu,\"s2c_write\":%zu}", PNAME[p], IW[wi], IR[ri], IX[xi]); } }
-	printf("STAT executions=%llu\n", (unsigned long long)NEXEC);
+	printf("STAT executions=%llu states=%llu transitions=%llu\n", (unsigned long long)NEXEC, (unsigned long long)NSTATES_SEEN, (unsigned long long)NTRANS);
 }
 int main(int argc, char **argv) { vh_init(argc, argv); app_fill(); XO = mmap(NULL, sizeof *XO, PROT_READ | PROT_WRITE, MAP_SHARED | MAP_ANONYMOUS, -1, 0);
 	for (int p = 0; p < 3; p++) for (int d = 1; d <= 3; d++) { if (build_side(&SRV[p][d - 1], p, 0, d, NULL) != 1 || build_side(&CLI[p][d - 1], p, 1, d, NULL) != 1) vh_harness_error("creds"); }
